@@ -118,6 +118,8 @@ def run(run, suspicious):
     presorted(run, rt, pdf)
     import minmax
     minmax.presorted_layer(run, rt, quick)
+    import c10_counts
+    c10_counts.run(run, rt)
 
 
 def _ident(p):
